@@ -35,7 +35,7 @@ func ruleC15(prog *Program, rep *Report) {
 	ruleFullRange(prog, rep, 6, "oj", "sen", "alt", "pretty")
 	ruleNumFamily(prog, rep, 4, "oj", "sen", "alt", "pretty", "")
 	ruleSelfRec(prog, rep, 6, "oj", "sen", "alt") // the field-plan builders for the three key cases are copies: each recurses into itself for embedded structs
-	rulePkgTwins(prog, rep, "oj", "sen", 40) // sen's writer, field plans and accessors are copies of oj's
+	rulePkgTwins(prog, rep, "oj", "sen", 40)      // sen's writer, field plans and accessors are copies of oj's
 }
 
 // fieldLoops finds `for` loops whose init or condition calls NumField().
